@@ -554,6 +554,32 @@ def check(run):
     for cs in tie_cases:
         i = impl.add(G.impl_line(cs)); m = mod.add(G.model_line(cs))
         jobs.append(("tie", cs, i, m))
+    # rmsd with atomPermutation (symmetry-adapted RMSD)
+    for k in range(8 * scale):
+        c = gen_ref_case(r, "rmsd")
+        if c is None:
+            continue
+        ids = G.dedup(c["groups"][0]); n = len(ids)
+        perms = []
+        for _ in range(r.randint(1, 3)):
+            pl = list(ids)
+            if r.random() < 0.5:
+                a, b = r.sample(range(n), 2); pl[a], pl[b] = pl[b], pl[a]
+                if r.random() < 0.6:      # the two atoms really are exchanged: the permuted copy is the closer one
+                    pa, pb = c["atoms"][ids[a] - 1][2:5], c["atoms"][ids[b] - 1][2:5]
+                    c["atoms"][ids[a] - 1][2:5], c["atoms"][ids[b] - 1][2:5] = pb, pa
+            else:
+                r.shuffle(pl)
+            perms.append(pl)
+        c["params"]["perms"] = perms
+        t = ["rmsdperm", "1", "0", G.hx(0.0), G.hx(0.0), G.hx(0.0), "%d" % n] + [G.hx(x) for v in c["params"]["ref"] for x in v]
+        t += ["%d" % len(perms)] + ["%d" % ids.index(a) for pl in perms for a in pl]
+        t += ["G", "%d" % n]
+        for i in ids:
+            t += ["%d" % (i - 1)] + [G.hx(x) for x in c["atoms"][i - 1]]
+        i = impl.add(G.impl_line([c])); m = mod.add(" ".join(t))
+        c["tol"] = 1e-7
+        jobs.append(("tie", [dict(c, comp="rmsd:atomPermutation")], i, m))
     # groups fitted on a reference (centerToReference, rotateToReference, fittingGroup): coordinates in the fitted frame
     for k in range(10 * scale):
         c = gen_fitted_case(r)
